@@ -149,9 +149,10 @@ type unaryRpcArgs struct {
 }
 
 type streamHandler struct {
-	ch     chan *goatorepo.Rpc
-	done   chan struct{}
-	cancel context.CancelFunc
+	ch      chan *goatorepo.Rpc
+	done    chan struct{}
+	cancel  context.CancelFunc
+	ctxDone <-chan struct{} // closed once the handler's context is done
 }
 
 // handler for a specific goat.RpcReadWriter
@@ -461,6 +462,10 @@ func (h *handler) processStreamingRpc(
 		} else {
 			select {
 			case handler.ch <- rpc:
+			case <-handler.ctxDone:
+				// The handler has returned (or was cancelled) without consuming its
+				// queue: drop the message rather than block the connection while
+				// holding the lock the handler needs to unregister.
 			case <-clientCtx.Done():
 				return clientCtx.Err()
 			case <-h.ctx.Done():
@@ -499,9 +504,10 @@ func (h *handler) processStreamingRpc(
 	streamId := rpc.Id
 
 	h.streams[streamId] = streamHandler{
-		ch:     make(chan *goatorepo.Rpc, 1),
-		done:   make(chan struct{}, 1),
-		cancel: cancel,
+		ch:      make(chan *goatorepo.Rpc, 1),
+		done:    make(chan struct{}, 1),
+		cancel:  cancel,
+		ctxDone: ctx.Done(),
 	}
 
 	go h.runStream(info, sd, rpc, streamId, ctx, h.streams[streamId])
